@@ -51,7 +51,7 @@ def shape_list(rng, tier):
                 t = rng.randrange(n)
                 vs.append((kind, [(rng.randrange(len(FT)), 'T' if i == t else rng.choice(['', 'I'])) for i in range(n)]))
         out.append((True, vs))
-    for _ in range(30 if tier == 'quick' else 300):
+    for _ in range(30 if tier == 'quick' else 3000):
         vs = []
         for _ in range(rng.randrange(1, 4)):
             kind = rng.choice(['named', 'tuple', 'unit'])
